@@ -161,7 +161,9 @@ def run(ck: Check):
                   "failing_factory_leaves_the_current_context_alone": "C12:restore:failed-factory",
                   "refused_entry_changes_nothing": "C12:restore:refused-entry",
                   "parent_is_the_current_context_itself": "C12:parent",
-                  "closing_anothers_context_leaves_the_closers_own_alone": "C12:disturbed-by-another-task"})
+                  "closing_anothers_context_leaves_the_closers_own_alone": "C12:disturbed-by-another-task",
+                  "callback_registered_from_elsewhere_runs_in_its_own_context": "C12:during-teardown",
+                  "task_started_on_an_outer_context_belongs_to_it": "C12:parent"})
     sigs, n_fail = {}, 0
     for r in results:
         for sig, what in oracle(r):
